@@ -731,6 +731,7 @@ def run(ctx: Ctx):
     from translator import c20 as tr
 
     ctx.trusted += TRUSTED
+    ctx.max_reported = 8          # placement / freshness / round-trip classes side by side
     ctx.assumptions += [
         "2-D inputs (3-D only through load_datacube / load_image round trips); pixel values are integers or quarters "
         "(exact in float64, and in the narrower dtypes where those are used); shapes and offsets are Python ints",
